@@ -120,6 +120,7 @@ type vconn struct {
 	out    *link
 	in     *link
 	closed bool
+	idle   bool // the reader is parked: it has consumed every byte handed to it and waits for more
 }
 
 type addr string
@@ -163,6 +164,7 @@ func (c *vconn) Read(p []byte) (int, error) {
 			}
 			copy(p, c.in.inbox[:n])
 			c.in.inbox = c.in.inbox[n:]
+			c.idle = false
 			w.log(c.side+".recv", "Chunk", "x", c.in.from, "n", n)
 			return n, nil
 		}
@@ -173,6 +175,10 @@ func (c *vconn) Read(p []byte) (int, error) {
 				w.cond.Broadcast()
 			}
 			return 0, io.EOF
+		}
+		if !c.idle && len(c.in.inbox) == 0 {
+			c.idle = true
+			w.cond.Broadcast()
 		}
 		w.cond.Wait()
 	}
@@ -655,7 +661,22 @@ func runScenario(sc *scenario, out *bufWriter) (nlines, nmsgs int) {
 			return (w.link["A"].eofSeen || w.errSeen["B"]) && (w.link["B"].eofSeen || w.errSeen["A"])
 		}, "both sides read the end of the peer's stream after FlushStop")
 	} else {
-		wait(func() bool { return w.errSeen["A"] && w.errSeen["B"] }, "onError on both sides after the failing packet")
+		// B fails on the packet in A's stream and closes, A reads the end of B's stream and fails too.
+		// If instead B has taken every byte of A's stream (all planned packets are on it) and is parked
+		// in Read again without having failed, no failure will come: recorded as Idle, the model decides.
+		expA := 0
+		for _, m := range sc.Msgs["A"] {
+			expA += npackets(m.Len, mp)
+		}
+		idleB := func() bool {
+			return !w.errSeen["B"] && w.link["A"].npk >= expA && len(w.link["A"].parse) == 0 && len(w.link["A"].inbox) == 0 && sides["B"].c.idle
+		}
+		wait(func() bool { return (w.errSeen["A"] && w.errSeen["B"]) || idleB() }, "onError on both sides after the failing packet")
+		w.mu.Lock()
+		if idleB() {
+			w.log("drv", "Idle", "x", "B")
+		}
+		w.mu.Unlock()
 	}
 	w.mu.Lock()
 	w.log("drv", "Final")
